@@ -5,9 +5,15 @@
    iff that call raises.  It is universally quantified, so the theorems cover every fault position,
    every class, and any number of faulting positions (the first one in execution order wins).
    `sched_*` is the flat list of calls a mode makes; "pre ++ fe :: post with nothing faulting in pre and
-   fe faulting" says that fe is the fault.  No bound on runs, steps, groups, models. *)
+   fe faulting" says that fe is the fault.  No bound on runs, steps, groups, models.
+   The class `c` ranges over ALL classes of the model, including those that are not `Exception`
+   subclasses (KeyboardInterrupt, SystemExit, a custom BaseException): propagation, "no result" and "no
+   later call" hold for them too; the identity notes are attached by `except Exception` handlers and are
+   therefore stated for `is_exception c = true` (C09_base_exception_untouched says what happens otherwise).
+   Round 2 (second half of the file): the public entry points around the running modes and every construct
+   that can drop an exception on the paths from them to a model call. *)
 From Coq Require Import List String Bool Arith.
-From PyxelV Require Import Model.Failure Proofs.Failure.
+From PyxelV Require Import Model.Failure Proofs.Failure Proofs.FailureEntry Proofs.FailureDebug.
 From PyxelGen Require Import Gen_C09.
 Import ListNotations.
 Open Scope list_scope.
@@ -24,7 +30,8 @@ Theorem C09_propagates_exposure :
     exists e, fst (exposure beh r pl n) = Raise e /\ cls e = c /\ msg e = py_str c p.
 Proof.
   intros beh r pl n pre fe c p H. apply first_fault_some in H.
-  rewrite exposure_spec, H. eexists. split; [reflexivity|]. split; reflexivity.
+  rewrite exposure_spec, H. eexists. split; [reflexivity|].
+  unfold exn_of. split; [apply exn_of_fault_cls|apply exn_of_fault_msg].
 Qed.
 Print Assumptions C09_propagates_exposure.
 
@@ -35,7 +42,9 @@ Theorem C09_propagates :
 Proof.
   intros beh pl n runs pre fe c p H. apply first_fault_some in H.
   destruct (obs_seq_fault beh pl n runs pre fe c p H) as (rpre & r & rpost & _ & _ & _ & E).
-  rewrite E. eexists. split; [reflexivity|]. split; reflexivity.
+  rewrite E. eexists. split; [reflexivity|].
+  unfold obs_exn, exn_of. rewrite annotate_cls, annotate_msg.
+  split; [apply exn_of_fault_cls|apply exn_of_fault_msg].
 Qed.
 Print Assumptions C09_propagates.
 
@@ -51,7 +60,7 @@ Print Assumptions C09_no_fault_result.
 
 Theorem C09_identity :
   forall beh pl n runs pre fe c p,
-    is_fault beh (sched_obs pl n runs) pre fe c p ->
+    is_fault beh (sched_obs pl n runs) pre fe c p -> is_exception c = true ->
     exists e rpre r rpost,
       fst (obs_seq beh pl n runs) = Raise e /\
       (* the run that was executing: the first one with a fault *)
@@ -64,29 +73,49 @@ Theorem C09_identity :
                   In (param_note kv) (notes e) /\ substrb (fst kv) (param_note kv) = true
                   /\ substrb (snd kv) (param_note kv) = true).
 Proof.
-  intros beh pl n runs pre fe c p H. apply first_fault_some in H.
+  intros beh pl n runs pre fe c p H Hex. apply first_fault_some in H.
   destruct (obs_seq_fault beh pl n runs pre fe c p H) as (rpre & r & rpost & Hr & Hid & Hn & E).
   exists (obs_exn r fe c p), rpre, r, rpost. rewrite E.
+  assert (Hnotes : notes (obs_exn r fe c p) =
+                   [note_of_event fe] ++ obs_header :: map param_note (r_params r)).
+  { unfold obs_exn, exn_of. rewrite annotate_notes_exc by (rewrite exn_of_fault_cls; exact Hex).
+    rewrite exn_of_fault_notes by exact Hex. reflexivity. }
   split; [reflexivity|]. split; [exact Hr|]. split; [exact Hid|].
   split; [apply first_fault_none; exact Hn|].
-  split; [simpl; left; reflexivity|].
+  split; [rewrite Hnotes; simpl; left; reflexivity|].
   split; [apply note_mentions_group|]. split; [apply note_mentions_model|].
   intros kv Hkv. split.
-  - simpl. right. right. apply in_map. exact Hkv.
+  - rewrite Hnotes. simpl. right. right. apply in_map. exact Hkv.
   - split; [apply param_note_mentions_key|apply param_note_mentions_value].
 Qed.
 Print Assumptions C09_identity.
 
 Theorem C09_identity_exposure :
   forall beh r pl n pre fe c p,
-    is_fault beh (sched_expo r pl n) pre fe c p ->
+    is_fault beh (sched_expo r pl n) pre fe c p -> is_exception c = true ->
     exists e, fst (exposure beh r pl n) = Raise e /\
               notes e = [note_text (ev_group fe) (ev_model fe) (ev_func fe)].
 Proof.
-  intros beh r pl n pre fe c p H. apply first_fault_some in H.
-  rewrite exposure_spec, H. eexists. split; reflexivity.
+  intros beh r pl n pre fe c p H Hex. apply first_fault_some in H.
+  rewrite exposure_spec, H. eexists. split; [reflexivity|].
+  unfold exn_of. rewrite exn_of_fault_notes by exact Hex. reflexivity.
 Qed.
 Print Assumptions C09_identity_exposure.
+
+(* a class that is not an Exception subclass (KeyboardInterrupt, SystemExit, ...) is not caught by the
+   `except Exception` handlers: it reaches the caller exactly as raised - same object, nothing attached *)
+Theorem C09_base_exception_untouched :
+  forall beh pl n runs pre fe c p,
+    is_fault beh (sched_obs pl n runs) pre fe c p -> is_exception c = false ->
+    fst (obs_seq beh pl n runs) = Raise (raise_of c p) /\ snd (obs_seq beh pl n runs) = pre ++ [fe].
+Proof.
+  intros beh pl n runs pre fe c p H Hb. apply first_fault_some in H.
+  destruct (obs_seq_fault beh pl n runs pre fe c p H) as (rpre & r & rpost & _ & _ & _ & E).
+  rewrite E. simpl. split; [|reflexivity]. f_equal.
+  unfold obs_exn, exn_of. rewrite exn_of_fault_base by exact Hb.
+  apply annotate_base. exact Hb.
+Qed.
+Print Assumptions C09_base_exception_untouched.
 
 (* ---- no later runs: the calls made are exactly those before the fault, then the faulting one ---- *)
 
@@ -137,8 +166,8 @@ Theorem C09_parallel_surfaces :
     In r runs -> is_fault beh (sched_expo (r_id r) pl n) pre0 fe0 c0 p0 ->
     exists r' pre fe c p,
       In r' runs /\ is_fault beh (sched_expo (r_id r') pl n) pre fe c p /\
-      let e := {| cls := c; msg := py_str c p;
-                  notes := [note_text (ev_group fe) (ev_model fe) (ev_func fe)] |} in
+      (* original class and message; the group/model note if c is an Exception subclass *)
+      let e := exn_of_fault fe c p in
       obs_par beh compute pl n runs = ParBuildRaise e \/
       obs_par beh compute pl n runs = ParLoaded (Raise e).
 Proof.
@@ -178,18 +207,27 @@ Theorem C09_calibration_surfaces :
     exists e', calib beh compute transport pl n init gens = Raise e' /\
       exists cand' pre fe c p,
         first_fault beh (sched_expo cand' pl n) = Some (pre, fe, c, p) /\
-        ((In cand' init /\ cls e' = c /\ msg e' = py_str c p /\
-          In (note_text (ev_group fe) (ev_model fe) (ev_func fe)) (notes e'))
+        ((In cand' init /\
+          (* StopIteration crosses the generator that creates the islands: CPython replaces it (PEP 479) *)
+          (if is_stop_iteration c then cls e' = RuntimeError
+           else cls e' = c /\ msg e' = py_str c p /\
+                (is_exception c = true -> In (note_text (ev_group fe) (ev_model fe) (ev_func fe)) (notes e'))))
          \/
          (In cand' (List.concat gens) /\ substrb (py_str c p) (msg e') = true /\
-          substrb (note_text (ev_group fe) (ev_model fe) (ev_func fe)) (msg e') = true)).
+          (is_exception c = true ->
+           substrb (note_text (ev_group fe) (ev_model fe) (ev_func fe)) (msg e') = true))).
 Proof.
   intros compute transport [Hok Hraise] [Hm Hn] beh pl n init gens cand Hw Hf.
   destruct (calib_surfaces beh compute Hok Hraise transport Hm Hn pl n init gens cand Hw Hf)
     as (e' & He & [Hs|Hs]); exists e'; (split; [exact He|]);
     destruct Hs as (cd & pre & fe & c & p & Hin & Hff & Hs); exists cd, pre, fe, c, p; (split; [exact Hff|]).
-  - left. subst e'. split; [exact Hin|]. split; [reflexivity|]. split; [reflexivity|].
-    simpl. left. reflexivity.
+  - left. subst e'. split; [exact Hin|]. unfold exn_of, pep479.
+    rewrite annotate_cls, exn_of_fault_cls.
+    destruct (is_stop_iteration c); [reflexivity|].
+    split; [rewrite annotate_cls; apply exn_of_fault_cls|].
+    split; [rewrite annotate_msg; apply exn_of_fault_msg|].
+    intros Hex. rewrite annotate_notes_exc by (rewrite exn_of_fault_cls; exact Hex).
+    rewrite exn_of_fault_notes by exact Hex. simpl. left. reflexivity.
   - right. destruct Hs as [H1 H2]. auto.
 Qed.
 Print Assumptions C09_calibration_surfaces.
@@ -212,6 +250,253 @@ Print Assumptions C09_src_note_handlers.
 Theorem C09_src_wait_check : src_wait_check = true.
 Proof. vm_compute. reflexivity. Qed.
 Print Assumptions C09_src_wait_check.
+
+(* ================================================================================================ *)
+(* Round 2: entry points, and every construct that can drop an exception between a model and the caller *)
+
+(* ---- the source, as it is now: for EVERY public entry point that starts a simulation (pyxel.run_mode,
+   pyxel.run(file), the `pyxel run` command, the methods Exposure.run_exposure / Observation.run_pipelines /
+   Calibration.run_calibration, the deprecated pyxel.exposure_mode / observation_mode / calibration_mode) and EVERY
+   running mode, every function on every path down to the model call exists, refers to the next one, and
+   contains no `except` handler that does not end in a bare re-raise, no `finally` block that can be left by
+   return/break/continue, no suppressing context manager ---- *)
+
+Theorem C09_src_paths_ok : source_ok src_constructs src_refs = true.
+Proof. vm_compute. reflexivity. Qed.
+Print Assumptions C09_src_paths_ok.
+
+(* the three note-adding handlers catch (at least) every Exception, add a note and re-raise *)
+Theorem C09_src_note_handlers_scope :
+  note_handler_ok src_constructs "ModelGroup.run" = true /\
+  note_handler_ok src_constructs "Observation._run_single_pipeline" = true /\
+  note_handler_ok src_constructs "ModelFittingDataTree.fitness" = true.
+Proof. vm_compute. repeat split. Qed.
+Print Assumptions C09_src_note_handlers_scope.
+
+Theorem C09_src_wait_check_old : src_wait_check_old = true.
+Proof. vm_compute. reflexivity. Qed.
+Print Assumptions C09_src_wait_check_old.
+
+(* ---- generic: a stack of constructs none of which can drop an exception hands an exception in flight to
+   its caller - as the exception itself (class and message unchanged, notes only extended) or, when a clean-up
+   step (`finally` body, __exit__) raised on top of it, in the __context__ chain of what surfaces.  For ANY
+   run-time behaviour `ev` of the clean-up steps, any number of constructs. ---- *)
+
+Theorem C09_constructs_propagate :
+  forall A (dflt : A) ev ss i e ctx,
+    forallb shape_propagates ss = true ->
+    kept e (through_all dflt ev i ss (XRaise e ctx)).
+Proof.
+  intros A dflt ev ss i e ctx Hs. apply through_all_kept; [exact Hs|].
+  simpl. left. apply same_exc_refl.
+Qed.
+Print Assumptions C09_constructs_propagate.
+
+(* if no clean-up step raises, what surfaces IS the exception (and its context is untouched) *)
+Theorem C09_constructs_propagate_quiet :
+  forall A (dflt : A) ev ss i e ctx,
+    forallb shape_propagates ss = true -> (forall j, env_cleanup ev j = None) ->
+    exists e', through_all dflt ev i ss (XRaise e ctx : xres A) = XRaise e' ctx /\ same_exc e e'.
+Proof. intros. apply through_all_quiet; assumption. Qed.
+Print Assumptions C09_constructs_propagate_quiet.
+
+(* the check is sharp: each of the three constructs, when it does not propagate, loses the exception *)
+Theorem C09_swallowing_constructs_lose :
+  forall A (dflt : A) e ctx,
+    through dflt env_quiet 0 (SFinally true) (XRaise e ctx) = XOk dflt /\
+    through dflt env_quiet 0 (SWith true) (XRaise e ctx) = XOk dflt /\
+    through dflt env_quiet 0 (SExcept ScAll true false) (XRaise e ctx) = XOk dflt /\
+    (is_exception (cls e) = true ->
+     through dflt env_quiet 0 (SExcept ScException false false) (XRaise e ctx) = XOk dflt).
+Proof.
+  intros A dflt e ctx. repeat split.
+  intros H. apply handler_exception_swallows. exact H.
+Qed.
+Print Assumptions C09_swallowing_constructs_lose.
+
+(* ---- ...instantiated with the source: along every path of every entry point, in every running mode ---- *)
+
+Theorem C09_entry_paths_propagate :
+  forall p, In p all_entry_paths ->
+  forall A (dflt : A) ev e ctx,
+    kept e (through_all dflt ev 0 (stack_of src_constructs p) (XRaise e ctx)).
+Proof.
+  intros p Hp A dflt ev e ctx. apply C09_constructs_propagate.
+  apply (source_ok_stack src_constructs src_refs p C09_src_paths_ok Hp).
+Qed.
+Print Assumptions C09_entry_paths_propagate.
+
+Theorem C09_entry_paths_propagate_quiet :
+  forall p, In p all_entry_paths ->
+  forall A (dflt : A) ev e ctx, (forall j, env_cleanup ev j = None) ->
+    exists e', through_all dflt ev 0 (stack_of src_constructs p) (XRaise e ctx : xres A) = XRaise e' ctx
+               /\ same_exc e e'.
+Proof.
+  intros p Hp A dflt ev e ctx Hq. apply C09_constructs_propagate_quiet; [|exact Hq].
+  apply (source_ok_stack src_constructs src_refs p C09_src_paths_ok Hp).
+Qed.
+Print Assumptions C09_entry_paths_propagate_quiet.
+
+(* all 5 entry points x 4 modes are covered by all_entry_paths (nothing is vacuous) *)
+Theorem C09_entry_paths_cover :
+  forall ep m, In ep all_entries -> In m all_modes ->
+    entry_paths ep m <> [] /\ forall p, In p (entry_paths ep m) -> In p all_entry_paths.
+Proof.
+  intros ep m Hep Hm. split.
+  - destruct ep, m; discriminate.
+  - intros p Hp. unfold all_entry_paths. apply in_flat_map. exists ep. split; [exact Hep|].
+    apply in_flat_map. exists m. split; [exact Hm|exact Hp].
+Qed.
+Print Assumptions C09_entry_paths_cover.
+
+(* ---- pyxel.run(file) and the `pyxel run` command, with or without an `outputs` section (`files`), with the
+   constructs of run() as they are in the source now: a failing model makes both raise - never `None`, never
+   the command's own "No output filename(s) generated" error - and, unless the clean-up of run()'s `finally`
+   block fails too, what they raise is the model's exception with its class, message and notes; if the
+   clean-up fails, the model's exception is the context of the clean-up's exception ---- *)
+
+Theorem C09_run_file_propagates :
+  forall beh pl n runs pre fe c p ss,
+    lookup src_constructs "run.run" = Some ss ->
+    is_fault beh (sched_obs pl n runs) pre fe c p ->
+    exists e, fst (obs_seq beh pl n runs) = Raise e /\ cls e = c /\ msg e = py_str c p /\
+      forall ev files,
+        kept e (run_file ev ss files (fst (obs_seq beh pl n runs))) /\
+        kept e (cli_run ev ss files (fst (obs_seq beh pl n runs))) /\
+        ((forall j, env_cleanup ev j = None) ->
+         exists e', same_exc e e' /\
+                    run_file ev ss files (fst (obs_seq beh pl n runs)) = XRaise e' [] /\
+                    cli_run ev ss files (fst (obs_seq beh pl n runs)) = XRaise e' []).
+Proof.
+  intros beh pl n runs pre fe c p ss Hss H.
+  destruct (C09_propagates beh pl n runs pre fe c p H) as (e & He & Hc & Hm).
+  exists e. split; [exact He|]. split; [exact Hc|]. split; [exact Hm|].
+  assert (Hprop : forallb shape_propagates ss = true).
+  { assert (Hp : In ("run.run" :: run_mode_wrap MObsSeq ++
+                     ["Observation.run_pipelines"; "Observation._run_single_pipeline"] ++ path_pipeline)
+                    all_entry_paths) by (vm_compute; tauto).
+    destruct (source_ok_fn src_constructs src_refs _ "run.run" C09_src_paths_ok Hp (or_introl eq_refl))
+      as (ss' & Hl & Hok). congruence. }
+  intros ev files. rewrite He. split; [apply run_file_kept; exact Hprop|].
+  split; [apply cli_run_kept; exact Hprop|].
+  intros Hq. destruct (run_file_quiet (list (nat * list nat)) ev ss files e Hprop Hq) as (e' & Hr & Hs).
+  exists e'. split; [exact Hs|]. split; [exact Hr|]. unfold cli_run. rewrite Hr. reflexivity.
+Qed.
+Print Assumptions C09_run_file_propagates.
+
+(* without a failing model pyxel.run returns (None without outputs) and the command raises its own error
+   exactly when there is nothing to report: the entry points are not trivially raising *)
+Theorem C09_run_file_no_fault :
+  forall beh pl n runs ss ev files,
+    lookup src_constructs "run.run" = Some ss ->
+    (forall ev', In ev' (sched_obs pl n runs) -> ev_fault beh ev' = None) ->
+    (forall j, env_cleanup ev j = None) ->
+    run_file ev ss files (fst (obs_seq beh pl n runs)) = XOk (if files then Some tt else None) /\
+    cli_run ev ss files (fst (obs_seq beh pl n runs))
+      = if files then XOk tt else XRaise (raise_of RuntimeError no_output_msg) [].
+Proof.
+  intros beh pl n runs ss ev files Hss Hnf Hq.
+  rewrite (C09_no_fault_result beh pl n runs Hnf). simpl.
+  assert (Hprop : forallb shape_propagates ss = true).
+  { assert (Hp : In ("run.run" :: run_mode_wrap MObsSeq ++
+                     ["Observation.run_pipelines"; "Observation._run_single_pipeline"] ++ path_pipeline)
+                    all_entry_paths) by (vm_compute; tauto).
+    destruct (source_ok_fn src_constructs src_refs _ "run.run" C09_src_paths_ok Hp (or_introl eq_refl))
+      as (ss' & Hl & Hok). congruence. }
+  split; [apply run_file_ok; assumption|apply cli_run_ok; assumption].
+Qed.
+Print Assumptions C09_run_file_no_fault.
+
+(* ---- the deprecated pyxel.observation_mode ----
+   Sequential (after fix-c09: the runs are evaluated by a list comprehension instead of list(map(..))): the
+   first fault ends the observation with the exception exactly as it left ModelGroup.run - class, message,
+   group/model note - and no later run is executed.  What the deprecated path does NOT do is attach the
+   parameters of the failing run (finding C09-dep-params, open): the full statement is kept and refuted. *)
+
+Theorem C09_deprecated_observation :
+  forall beh pl n runs pre fe c p,
+    is_fault beh (sched_obs pl n runs) pre fe c p ->
+    obs_seq_old beh pl n runs = (Raise (exn_of_fault fe c p), pre ++ [fe]) /\
+    cls (exn_of_fault fe c p) = c /\ msg (exn_of_fault fe c p) = py_str c p /\
+    (is_exception c = true ->
+     notes (exn_of_fault fe c p) = [note_text (ev_group fe) (ev_model fe) (ev_func fe)]).
+Proof.
+  intros beh pl n runs pre fe c p H. apply first_fault_some in H.
+  split; [apply obs_seq_old_fault; exact H|].
+  split; [apply exn_of_fault_cls|]. split; [apply exn_of_fault_msg|].
+  intros Hex. apply exn_of_fault_notes. exact Hex.
+Qed.
+Print Assumptions C09_deprecated_observation.
+
+Definition C09_deprecated_parameters_full : Prop :=
+  forall beh pl n runs pre fe c p,
+    is_fault beh (sched_obs pl n runs) pre fe c p -> is_exception c = true ->
+    exists e, fst (obs_seq_old beh pl n runs) = Raise e /\
+              forall kv, In kv (r_params (run_by_id runs (ev_run fe))) -> In (param_note kv) (notes e).
+
+(* dask.bag (deprecated path with dask enabled): `compute_forces_all` is FALSE of it - a run whose model
+   raises StopIteration is dropped silently (finding C09-dep-stopiter-dask, open); it holds for every list
+   of cells in which no cell raises StopIteration *)
+Definition C09_deprecated_bag_full : Prop := compute_forces_all compute_bag.
+
+Theorem C09_deprecated_bag_refuted : ~ C09_deprecated_bag_full.
+Proof.
+  intros [_ H].
+  destruct (H [Raise (raise_of StopIteration "x"); Ok [0]] (raise_of StopIteration "x") (or_introl eq_refl))
+    as (e & _ & Hc).
+  vm_compute in Hc. discriminate.
+Qed.
+Print Assumptions C09_deprecated_bag_refuted.
+
+Theorem C09_deprecated_bag_partial :
+  (forall ds, compute_bag (map Ok ds) = Ok ds) /\
+  (forall ts e0, existsb bag_drops ts = false -> In (Raise e0) ts ->
+                 exists e, In (Raise e) ts /\ compute_bag ts = Raise e).
+Proof.
+  split.
+  - intros ds. rewrite compute_bag_no_stop; [apply compute_seq_ok|].
+    induction ds as [|d ds IH]; [reflexivity|exact IH].
+  - intros ts e0 Hn Hin. rewrite compute_bag_no_stop by exact Hn. apply (compute_seq_raise ts e0 Hin).
+Qed.
+Print Assumptions C09_deprecated_bag_partial.
+
+(* ---- exposure with debug=True: after every model call the detector is captured, outside the try
+   statement.  `cap` (universally quantified) says which captures fail.  Whatever comes first in execution order
+   - a model that raises, or a capture that fails after a model that returned - ends the exposure: no result, no
+   later call; a model's exception arrives with class, message and (Exception subclasses) its group/model note,
+   the capture's exception exactly as raised.  Without capture failures debug mode behaves like normal mode. ---- *)
+
+Theorem C09_debug_propagates :
+  forall beh cap r pl n pre fe e,
+    (exists post, sched_expo r pl n = pre ++ fe :: post) ->
+    (forall ev, In ev pre -> ev_stop beh cap ev = None) -> ev_stop beh cap fe = Some e ->
+    exposure_dbg beh cap r pl n = (Raise e, pre ++ [fe]) /\
+    (forall c p, ev_fault beh fe = Some (c, p) -> e = exn_of_fault fe c p) /\
+    (forall c p, ev_fault beh fe = None -> cap (ev_run fe) (ev_step fe) (ev_key fe) = Some (c, p) ->
+                 e = raise_of c p).
+Proof.
+  intros beh cap r pl n pre fe e Hs Hpre Hfe.
+  split; [rewrite exposure_dbg_spec, (first_stop_complete beh cap _ pre fe e Hs Hpre Hfe); reflexivity|].
+  unfold ev_stop in Hfe. split.
+  - intros c p Hf. rewrite Hf in Hfe. inversion Hfe. reflexivity.
+  - intros c p Hf Hc. rewrite Hf, Hc in Hfe. inversion Hfe. reflexivity.
+Qed.
+Print Assumptions C09_debug_propagates.
+
+Theorem C09_debug_no_stop_result :
+  forall beh cap r pl n,
+    (forall ev, In ev (sched_expo r pl n) -> ev_stop beh cap ev = None) ->
+    exposure_dbg beh cap r pl n = (Ok (seq 0 n), sched_expo r pl n).
+Proof.
+  intros beh cap r pl n H. rewrite exposure_dbg_spec.
+  rewrite (proj2 (first_stop_none beh cap _) H). reflexivity.
+Qed.
+Print Assumptions C09_debug_no_stop_result.
+
+Theorem C09_debug_conservative :
+  forall beh r pl n, exposure_dbg beh no_capture_failure r pl n = exposure beh r pl n.
+Proof. exact exposure_dbg_no_cap. Qed.
+Print Assumptions C09_debug_conservative.
 
 (* ---- non-vacuity ---- *)
 
@@ -271,3 +556,71 @@ Example C09_example_calibration_evolution :
              cls e' = RuntimeError /\ substrb "'boom'" (msg e') = true /\
              substrb "photon_collection" (msg e') = true /\ substrb "'a2'" (msg e') = true.
 Proof. eexists. split; [vm_compute; reflexivity|]. repeat split. Qed.
+
+(* round 2 *)
+Example C09_example_run_file_shapes : exists ss, lookup src_constructs "run.run" = Some ss /\ ss <> [].
+Proof. eexists. split; [vm_compute; reflexivity|discriminate]. Qed.
+
+(* a `return` in the `finally` block of pyxel.run: the failing run of C09_example_run returns None *)
+Example C09_example_finally_return :
+  run_file env_quiet [SExcept ScException false true; SFinally true] false (fst (obs_seq ex_beh ex_pl 2 ex_runs))
+  = XOk None.
+Proof. vm_compute. reflexivity. Qed.
+
+(* the same run through the constructs as they are: KeyError('boom') with its three notes; and when moving
+   the log file fails on top of it, the OSError surfaces with the KeyError as its context *)
+Example C09_example_run_file :
+  exists e', run_file env_quiet run_file_shapes true (fst (obs_seq ex_beh ex_pl 2 ex_runs)) = XRaise e' []
+             /\ cls e' = KeyError /\ msg e' = "'boom'"%string /\ List.length (notes e') = 3.
+Proof. eexists. split; [vm_compute; reflexivity|]. repeat split. Qed.
+
+Example C09_example_cleanup_fails :
+  exists e0, run_file env_cleanup_fails run_file_shapes true (fst (obs_seq ex_beh ex_pl 2 ex_runs))
+             = XRaise (raise_of OSError cleanup_msg) [e0] /\ cls e0 = KeyError /\ msg e0 = "'boom'"%string.
+Proof. eexists. split; [vm_compute; reflexivity|]. split; reflexivity. Qed.
+
+(* KeyboardInterrupt raised by a model: no note, same trace *)
+Example C09_example_keyboard_interrupt :
+  obs_seq (beh_of [(1, 0, 0, KeyboardInterrupt, "stop")]) ex_pl 2 ex_runs =
+  (Raise {| cls := KeyboardInterrupt; msg := "stop"; notes := [] |},
+   map (fun x => match x with (r, s, g, m, k) =>
+                   {| ev_run := r; ev_step := s; ev_group := g; ev_model := m; ev_func := "f"; ev_key := k |} end)
+       [ (0, 0, "photon_collection", "a0", 0); (0, 0, "photon_collection", "a2", 2); (0, 0, "charge_generation", "b0", 3);
+         (0, 1, "photon_collection", "a0", 0); (0, 1, "photon_collection", "a2", 2); (0, 1, "charge_generation", "b0", 3);
+         (1, 0, "photon_collection", "a0", 0) ]%string).
+Proof. vm_compute. reflexivity. Qed.
+
+Example C09_example_paths : List.length all_entry_paths = 37 /\
+  In ["run.run_config"; "run.run"; "run.run_mode"; "Observation.run_pipelines"; "Observation._run_single_pipeline";
+      "exposure.run_pipeline"; "Processor.run_pipeline"; "ModelGroup.run"; "ModelFunction.__call__"]%string all_entry_paths.
+Proof. split; [vm_compute; reflexivity|vm_compute; tauto]. Qed.
+
+(* the deprecated sequential observation attaches no parameters: run 1 of C09_example_run fails with one note only *)
+Theorem C09_deprecated_parameters_refuted : ~ C09_deprecated_parameters_full.
+Proof.
+  intros H.
+  destruct C09_example_fault_exists as (pre & fe & Hf & _ & Hr & _ & _).
+  destruct (H ex_beh ex_pl 2 ex_runs pre fe KeyError "boom"%string Hf eq_refl) as (e & He & Hk).
+  rewrite Hr in Hk.
+  specialize (Hk ("detector.environment.temperature", "101")%string (or_introl eq_refl)).
+  vm_compute in He. inversion He; subst e. vm_compute in Hk.
+  destruct Hk as [Hk|[]]. discriminate.
+Qed.
+Print Assumptions C09_deprecated_parameters_refuted.
+
+Example C09_example_deprecated_run :
+  fst (obs_seq_old ex_beh ex_pl 2 ex_runs) =
+  Raise {| cls := KeyError; msg := "'boom'";
+           notes := ["This error is raised in group 'photon_collection' at model 'a2' (f)."]%string |}.
+Proof. vm_compute. reflexivity. Qed.
+
+(* debug mode: model a0 returns at step 1 but the capture after it fails: nothing runs after it *)
+Example C09_example_debug_capture :
+  exposure_dbg (beh_of []) (fun r s k => if Nat.eqb s 1 && Nat.eqb k 0 then Some (ValueError, "capture") else None)
+               0 ex_pl 2 =
+  (Raise {| cls := ValueError; msg := "capture"; notes := [] |},
+   map (fun x => match x with (r, s, g, m, k) =>
+                   {| ev_run := r; ev_step := s; ev_group := g; ev_model := m; ev_func := "f"; ev_key := k |} end)
+       [ (0, 0, "photon_collection", "a0", 0); (0, 0, "photon_collection", "a2", 2); (0, 0, "charge_generation", "b0", 3);
+         (0, 1, "photon_collection", "a0", 0) ]%string).
+Proof. vm_compute. reflexivity. Qed.
